@@ -53,9 +53,15 @@ pub fn maybe_fuzz<P: Prop>(tier: Tier, seed: u64, r: &mut RunResult) {
         cmd.arg("-rss_limit_mb=4096");
         cmd.arg(format!("-artifact_prefix={artifacts}"));
         cmd.current_dir(&fuzz_dir).env("CARGO_NET_OFFLINE", "true").env("RUSTFLAGS", "--cfg tokio_unstable").env("VERIF_ROOT", &root);
-        cmd.stdout(std::process::Stdio::piped()).stderr(std::process::Stdio::piped());
+        // stderr goes to a file: with pipes the children block on a full pipe while an earlier one is awaited
+        let logp = format!("{artifacts}job{j}.log");
+        let Ok(logf) = std::fs::File::create(&logp) else {
+            r.inconclusive = Some(format!("cannot create {logp}"));
+            return;
+        };
+        cmd.stdout(std::process::Stdio::null()).stderr(logf);
         match cmd.spawn() {
-            Ok(c) => children.push(c),
+            Ok(c) => children.push((c, logp)),
             Err(e) => {
                 r.inconclusive = Some(format!("cannot spawn fuzzer: {e}"));
                 return;
@@ -65,15 +71,15 @@ pub fn maybe_fuzz<P: Prop>(tier: Tier, seed: u64, r: &mut RunResult) {
     let mut executed = 0u64;
     let mut crashed = false;
     let mut other_fail: Option<String> = None;
-    for c in children {
-        let out = c.wait_with_output().expect("fuzzer wait");
-        let err = String::from_utf8_lossy(&out.stderr);
+    for (mut c, logp) in children {
+        let status = c.wait().expect("fuzzer wait");
+        let err = std::fs::read_to_string(&logp).unwrap_or_default();
         for line in err.lines() {
             if let Some(v) = line.strip_prefix("stat::number_of_executed_units:") {
                 executed += v.trim().parse::<u64>().unwrap_or(0);
             }
         }
-        if !out.status.success() {
+        if !status.success() {
             if err.contains("FUZZ-VIOLATION") || err.contains("panicked") || err.contains("ERROR: AddressSanitizer") || err.contains("deadly signal") {
                 crashed = true;
             } else {
@@ -90,7 +96,7 @@ pub fn maybe_fuzz<P: Prop>(tier: Tier, seed: u64, r: &mut RunResult) {
     if crashed {
         // replay artifacts in-process to obtain the signature
         if let Ok(rd) = std::fs::read_dir(&artifacts) {
-            let mut files: Vec<_> = rd.filter_map(|e| e.ok()).map(|e| e.path()).collect();
+            let mut files: Vec<_> = rd.filter_map(|e| e.ok()).map(|e| e.path()).filter(|p| p.extension().map(|x| x != "log").unwrap_or(true)).collect();
             files.sort();
             let known = load_known(P::ID);
             for f in files {
